@@ -490,7 +490,8 @@ class Type1Tag(Tag):
         else:
             if type(error) is nfc.clf.TimeoutError:
                 raise Type1TagCommandError(nfc.tag.TIMEOUT_ERROR)
-            if type(error) is nfc.clf.TransmissionError:
+            if type(error) in (nfc.clf.TransmissionError,
+                               nfc.clf.BrokenLinkError):
                 raise Type1TagCommandError(nfc.tag.RECEIVE_ERROR)
             if type(error) is nfc.clf.ProtocolError:
                 raise Type1TagCommandError(nfc.tag.PROTOCOL_ERROR)
